@@ -47,7 +47,7 @@ for (const job of jobs) {
   for (const trace of job.traces) {
     const obs = [];
     let calls = [];
-    const counters = {};
+    let counters = {};           // the k-th call of an import *within one export call* returns rets[k]
     const imports = {};
     for (const x of job.ext || []) {
       imports[x.mod] = imports[x.mod] || {};
@@ -71,6 +71,7 @@ for (const job of jobs) {
     }
     for (const c of trace) {
       calls = [];
+      counters = {};
       const args = c.args.map((a, k) => c.tys[k] === 'i64' ? BigInt(a) : Number(BigInt.asIntN(32, BigInt(a))));
       try {
         const r = inst.exports[c.fn](...args);
